@@ -114,10 +114,10 @@ def spec_values(p, u):
         if isinstance(d, str):
             t = d
             seen = 0
-            while isinstance(p.dists[p.keys.index(t)], str) and seen < 50:
+            while t in p.keys and isinstance(p.dists[p.keys.index(t)], str) and seen < 50:
                 t = p.dists[p.keys.index(t)]
                 seen += 1
-            vals[k] = vals.get(t)
+            vals[k] = vals.get(t) if t in p.keys else 'undeclared:' + str(t)
     return vals
 
 
@@ -148,6 +148,11 @@ def transforms(p, us):
         if p.dimensionality() != n_free:
             fails.append(('dimensionality-wrong', 'dimensionality()=%d but %d free parameters' % (p.dimensionality(), n_free)))
         want = spec_values(p, us)
+        for k, v in list(want.items()):
+            if isinstance(v, str):
+                fails.append(('link-to-undeclared-key-accepted', 'key %s is linked to %s, which is not a declared key (prior %s)' % (
+                    k, v.split(':', 1)[1], state_repr(p))))
+                want[k] = None
         if dic is None:
             fails.append(('dictionary-raises', 'unit_to_dictionary raised %s on a well-formed prior %s' % (dic_s, state_repr(p))))
         else:
